@@ -61,6 +61,7 @@ class RefBlock:
         self.q, self.m, self.a = [], [], {}      # items: client ports of Q/Rs and malformed messages; address-event type -> count
         self.cq = self.cm = 0                    # read cursors
         self.ca = False                          # address events read to the end
+        self.st = None                           # block statistics (processed_messages) or absent
 
     def add(self, T, v):
         if v in self.t[T]:
@@ -81,10 +82,11 @@ class RefBlock:
         b = RefBlock()
         b.t = {k: list(v) for k, v in self.t.items()}
         b.q, b.m, b.a = list(self.q), list(self.m), dict(self.a)      # a copy starts reading at the beginning
+        b.st = self.st                                                 # absent statistics are copied as absent
         return b
 
     def sig(self):
-        return repr((sorted(self.t.items()), self.q, self.m, sorted(self.a.items())))
+        return repr((sorted(self.t.items()), self.q, self.m, sorted(self.a.items()), self.st))
 
 
 def run_ref(toks):
@@ -100,7 +102,11 @@ def run_ref(toks):
             elif op == "del":
                 B.pop(int(a[1]), None); out.append("ok")
             elif op == "clr":
-                b = B[int(a[1])]; b.t = {T: [] for T in TABLES}; b.q, b.m, b.a = [], [], {}; out.append("ok")
+                b = B[int(a[1])]; b.t = {T: [] for T in TABLES}; b.q, b.m, b.a = [], [], {}; b.st = None; out.append("ok")
+            elif op == "st":
+                B[int(a[1])].st = a[2]; out.append("ok")
+            elif op == "gs":
+                out.append(B[int(a[1])].st or "none")
             elif op == "iq":
                 B[int(a[1])].q.append(a[2]); out.append("ok")
             elif op == "im":
